@@ -1900,12 +1900,30 @@ class JobsCursor:
             )
 
         def _strip_prefix(key):
-            """Strip the prefix, if it is present.
+            """Strip the namespace prefix (sp. or doc.), if it is present.
 
             Implicit and explicit sp prefixes are equivalent and can be treated
-            identically for this purpose.
+            identically for this purpose. The remainder may be a dotted
+            (nested) key.
             """
-            return key.split(".", 1)[-1]
+            if "." in key and key.split(".", 1)[0] in ("sp", "doc"):
+                return key.split(".", 1)[1]
+            return key
+
+        def _get(mapping, dotted_key):
+            """Look up a (possibly nested, dotted) key; raises KeyError if absent."""
+            for k in dotted_key.split("."):
+                try:
+                    mapping = mapping[k]
+                except TypeError:
+                    raise KeyError(dotted_key)
+            return mapping
+
+        def _get_default(mapping, dotted_key, default):
+            try:
+                return _get(mapping, dotted_key)
+            except KeyError:
+                return default
 
         def _is_doc_key(key):
             """Check if a key is a document key."""
@@ -1923,23 +1941,25 @@ class JobsCursor:
                 if _is_doc_key(key):
 
                     def keyfunction(job):
-                        return job.document[stripped_key]
+                        return _get(job.document, stripped_key)
 
                 else:
 
                     def keyfunction(job):
-                        return job.cached_statepoint[stripped_key]
+                        return _get(job.cached_statepoint, stripped_key)
 
             else:
                 if _is_doc_key(key):
 
                     def keyfunction(job):
-                        return job.document.get(stripped_key, default)
+                        return _get_default(job.document, stripped_key, default)
 
                 else:
 
                     def keyfunction(job):
-                        return job.cached_statepoint.get(stripped_key, default)
+                        return _get_default(
+                            job.cached_statepoint, stripped_key, default
+                        )
 
         elif isinstance(key, Iterable):
             sp_keys = []
@@ -1958,16 +1978,16 @@ class JobsCursor:
 
                 def keyfunction(job):
                     return tuple(
-                        [job.cached_statepoint[k] for k in sp_keys]
-                        + [job.document[k] for k in doc_keys]
+                        [_get(job.cached_statepoint, k) for k in sp_keys]
+                        + [_get(job.document, k) for k in doc_keys]
                     )
 
             else:
 
                 def keyfunction(job):
                     return tuple(
-                        [job.cached_statepoint.get(k, default) for k in sp_keys]
-                        + [job.document.get(k, default) for k in doc_keys]
+                        [_get_default(job.cached_statepoint, k, default) for k in sp_keys]
+                        + [_get_default(job.document, k, default) for k in doc_keys]
                     )
 
         elif key is None:
